@@ -687,6 +687,7 @@ def run(rep, tier):
     rep.floor("live records re-added", c06_audit.live_record_rule(rep, u), 1)
     rep.floor("descriptor-based ENOENT exits", c06_audit.tfd_kind_rule(rep, fp), 3)
     c06_audit.tpdata_snapshot_rule(rep, fl_)
+    c06_audit.stale_errno_rule(rep, fl_)
     return driver.finish(
         rep, "other",
         "Static analysis of the Linux (epoll) branch of threadpool.c; the BSD/kqueue branch is not compiled here and is NOT "
